@@ -698,7 +698,7 @@ func checkC06ExecuteReset(c *Ctx, r *Rule) {
 	}
 	if bcPos.IsValid() {
 		facts, _ := gs.At(bcPos)
-		r.Check(facts.Has(fTrue("resetBuildClauses")) || hasFactPrefix(facts, "T:reset"), exec.Name(), "BuildClauses reset", bcPos, "reset only when set by this Execute", "BuildClauses is cleared although it was supplied by the caller")
+		r.Check(localFact(exec, facts, true, bcPos, defIsConstBool), exec.Name(), "BuildClauses reset", bcPos, "reset only when set by this Execute", "BuildClauses is cleared although it was supplied by the caller")
 	} else {
 		r.Bad(exec.Name(), "BuildClauses reset", loop.Pos(), "Execute sets BuildClauses from the processor but never resets it")
 	}
